@@ -1095,7 +1095,7 @@ fn c16_scen(t: Tier) -> Vec<(&'static str, u64)> {
     let mut v = vec![("boundary-progressive", t.pick(200_000, 4_000_000)), ("boundary-fragmented", t.pick(200_000, 4_000_000))];
     if t == Tier::Thorough {
         // 16 recordings of about 4 GiB each, executed one at a time by worker 0
-        v.push(("slow-four-gib", 16));
+        v.push(("slow-four-gib", 32));
     }
     v
 }
